@@ -749,7 +749,6 @@ func requestPartsOK(s Summary, u Event, reqBody *Term) (bool, string) {
 	return true, ""
 }
 
-
 func limiterNilOnPath(s Summary, limiter *Term) bool {
 	k, isNil, _ := nilFact(s, limiter)
 	return k && isNil
